@@ -96,7 +96,7 @@ func registry() map[string]PropSpec {
 		Harnesses: []HSpec{
 			{Pkg: ".", Name: "c10_envblock", Quick: map[string]int{"entries": 2, "callervars": 1, "valueshapes": 2}, Thorough: map[string]int{"entries": 2, "callervars": 1, "valueshapes": 3}, Unwind: [2]int{40, 60}, Budget: [2]int{300, 2400},
 				Models: []string{"github.com/buildkite/interpolate.Interpolate=vpModelInterpolate"}, Validate: []string{"interpolate"},
-				What:   "interpolateEnvBlock/Interpolate equal the in-order fold of the property statement: names and values expanded under caller env + earlier entries, rewritten in place, exported to the caller env unless runtime precedence applies, case-(in)sensitive caller env, later step strings expanded under the final env"},
+				What: "interpolateEnvBlock/Interpolate equal the in-order fold of the property statement: names and values expanded under caller env + earlier entries, rewritten in place, exported to the caller env unless runtime precedence applies, case-(in)sensitive caller env, later step strings expanded under the final env"},
 			{Pkg: ".", Name: "c10_collisions", Quick: map[string]int{"entries": 3}, Thorough: map[string]int{"entries": 4}, Unwind: [2]int{40, 60},
 				Models: []string{"github.com/buildkite/interpolate.Interpolate=vpModelInterpolate"},
 				What:   "names that collide after expansion: no panic, and the block equals the ordered-map model of the same in-place renames (colliding entry dropped, renamed entry keeps its position, dropped entries not visited)"},
@@ -113,7 +113,7 @@ func registry() map[string]PropSpec {
 		Harnesses: []HSpec{
 			{Pkg: ".", Name: "c04_positions", Quick: map[string]int{"groups": 8}, Unwind: [2]int{48, 48},
 				Models: []string{"github.com/buildkite/interpolate.Interpolate=vpModelInterpolate"}, Validate: []string{"interpolate"},
-				What:   "(*Pipeline).Interpolate with the real envInterpolator on one instance of every step kind with a distinct string in every string position: each equals the single-pass expansion of the original (escaped references once), signature untouched, shapes unchanged; all map iteration orders and produced-or-skipped choices for entries inserted during iteration"},
+				What: "(*Pipeline).Interpolate with the real envInterpolator on one instance of every step kind with a distinct string in every string position: each equals the single-pass expansion of the original (escaped references once), signature untouched, shapes unchanged; all map iteration orders and produced-or-skipped choices for entries inserted during iteration"},
 			{Pkg: ".", Name: "c04_walkers", Quick: map[string]int{"depth": 1, "fan": 2}, Thorough: map[string]int{"depth": 2, "fan": 2}, Unwind: [2]int{24, 32}, Budget: [2]int{120, 2700},
 				What: "interpolateAny/Slice/Map/OrderedMap and Plugin.interpolate with a marking transformer (injective, not idempotent) on arbitrary trees of strings, []any, []string, map[string]any, map[string]string, *MapSA, *MapSS, *Plugin, ints, bools, nil: result equals an independently built expected tree"},
 			{Pkg: ".", Name: "c04_error", Quick: map[string]int{}, Unwind: [2]int{48, 48},
@@ -152,7 +152,7 @@ func registry() map[string]PropSpec {
 		Harnesses: []HSpec{
 			{Pkg: ".", Name: "c17_fullsource", Quick: map[string]int{"len": 8}, Thorough: map[string]int{"len": 12}, Unwind: [2]int{96, 128}, Budget: [2]int{120, 1500},
 				Models: []string{"net/url.Parse=vpModelURLParse", "path.Join=vpModelPathJoin"}, Validate: []string{"urlparse", "pathjoin"},
-				What:   "FullSource on every source of up to len bytes over [ab0._/-#:@\\] inside the documented forms equals the documented rules; a second application is the identity; MarshalYAML keys by the canonical source"},
+				What: "FullSource on every source of up to len bytes over [ab0._/-#:@\\] inside the documented forms equals the documented rules; a second application is the identity; MarshalYAML keys by the canonical source"},
 			{Pkg: ".", Name: "c17_dictionary", Quick: map[string]int{"words": 1}, Thorough: map[string]int{"words": 2}, Unwind: [2]int{128, 160}, Budget: [2]int{120, 1500},
 				Models: []string{"net/url.Parse=vpModelURLParse", "path.Join=vpModelPathJoin"},
 				What:   "same oracle on sources assembled from symbolic pieces and the string constants found in FullSource's current SSA (a dictionary that follows the code: suffixes, hosts, separators), so inputs far longer than the byte bound that contain the code's own magic strings are covered"},
@@ -190,8 +190,8 @@ func registry() map[string]PropSpec {
 		Harnesses: []HSpec{
 			{Pkg: "ordered", Name: "c08_decode_order", Quick: map[string]int{"entries": 3}, Thorough: map[string]int{"entries": 5}, Unwind: [2]int{32, 48},
 				What: "DecodeYAML, Map[string,string].UnmarshalOrdered, MarshalJSON and MarshalYAML keep document order for every key set (0-2-byte keys incl. the empty key)"},
-			{Pkg: "ordered", Name: "c08_roundtrip", Quick: map[string]int{"entries": 2}, Thorough: map[string]int{"entries": 3}, Unwind: [2]int{32, 48},
-				What: "a programmatically built ordered map (nested one level) survives YAML encode -> node-level decode with keys, values and order"},
+			{Pkg: "ordered", Name: "c08_roundtrip", Quick: map[string]int{"entries": 3, "ops": 1}, Thorough: map[string]int{"entries": 4, "ops": 2}, Unwind: [2]int{32, 48},
+				What: "a programmatically built ordered map (Set of up to `entries` keys, nested one level, then up to `ops` Delete/Replace operations that leave tombstoned slots at the front, middle or end) survives json.Marshal -> yaml.Unmarshal -> DecodeYAML and MarshalYAML -> DecodeYAML with keys, values and order (ordered.Equal)"},
 			{Pkg: "ordered", Name: "c07_merge_chain", Quick: map[string]int{}, Unwind: [2]int{32, 32},
 				What: "merged keys stand where the merge key stood (shared with C07: order is part of the reference comparison)"},
 			{Pkg: ".", Name: "c08_plugins_order", Quick: map[string]int{"entries": 3}, Thorough: map[string]int{"entries": 4}, Unwind: [2]int{48, 64},
@@ -214,6 +214,8 @@ func registry() map[string]PropSpec {
 				What: "jwkutil.Validate on an abstract key: symbolic structural validity, algorithm present/absent, algorithm of kind signature / key-encryption / invalid with a symbolic name of <= 8 bytes, symbolic key type of <= 3 bytes: accepted exactly for valid keys with RSA+PS512, EC+ES512 or OKP+EdDSA"},
 			{Pkg: "jwkutil", Name: "c18_loadkey", Quick: map[string]int{"keys": 2}, Thorough: map[string]int{"keys": 3}, Unwind: [2]int{24, 24},
 				What: "LoadKey (file reading and jwk.Parse stubbed to return the abstract set) on key sets of <= keys keys with symbolic ids and a symbolic requested id: requested or only key, refusal of ambiguous, absent and invalid keys"},
+			{Pkg: "jwkutil", Name: "c18_reload", Quick: map[string]int{"loads": 2}, Thorough: map[string]int{"loads": 3}, Unwind: [2]int{24, 24},
+				What: "histories of `loads` LoadKey calls in one process (package-level state symbolically carried from call to call; sync.Map modelled as an association list, RFC 7638 thumbprints as an injective function of key type and material): each file holds one key of type OKP/EC/RSA whose material is either that of an earlier key or fresh, with its own algorithm declaration (approved, other signature algorithms, symmetric, or none), key id and requested id; every load is accepted exactly when that key alone would be"},
 		},
 		Outside: []string{
 			"NewKeyPair (crypto/rand, RSA/EC/Ed25519 generation) and `what one key signs verifies with its public half and no other` (real cryptography): not encodable; not claimed",
@@ -387,6 +389,8 @@ func registry() map[string]PropSpec {
 				What: "SignSteps on a command step drawn from an option lattice (command incl. multi-line, env nil/empty/populated with type-looking strings, plugins nil/empty/short source/canonical source with every scalar kind in configs, matrix nil/empty/simple/named+adjustments/only adjustments, pipeline env with a shadowed variable, all key kinds) plus wait and group steps -> json.Marshal -> re-parse via CommandStep.UnmarshalJSON and via the whole-pipeline path -> Verify with the pipeline env plus an unrelated variable: signature unchanged and still verifies, also inside groups"},
 			{Pkg: "signature", Name: "c02_yaml", Quick: map[string]int{}, Unwind: [2]int{64, 64}, Budget: [2]int{120, 1500}, FixedMapOrder: true, Models: []string{"net/url.Parse=vpModelURLParse", "path.Join=vpModelPathJoin"},
 				What: "the same signed worlds through the YAML leg on the node data model: yaml.Marshal of the signed pipeline -> node tree -> parse -> Verify; signature value unchanged, still verifies, also inside groups"},
+			{Pkg: "signature", Name: "c02_parsed", Quick: map[string]int{}, Unwind: [2]int{64, 64}, Budget: [2]int{120, 1500}, FixedMapOrder: true, Models: []string{"net/url.Parse=vpModelURLParse", "path.Join=vpModelPathJoin"},
+				What: "the upload path on steps that come out of the parser: a command-step document in the decoder's input form (9 matrix spellings incl. `matrix: []`, `setup: []`, `setup: {}`, `setup: null`, mixed scalar kinds; 3 env spellings with non-string scalars and null; 4 plugin spellings; label and an unknown key) -> ordered.Unmarshal -> SignSteps -> json.Marshal and yaml.Marshal -> re-parse (whole pipeline, and CommandStep.UnmarshalJSON) -> Verify"},
 		},
 		Outside: []string{
 			"the YAML leg and real bytes: the round trip through yaml.v3's emitter/scanner and encoding/json's byte output, and real signatures - this part of C02 is not claimed",
